@@ -3,8 +3,12 @@
 package stack
 
 import (
+	"net/rpc"
+	"regexp"
+
 	"fmt"
 	cl "github.com/imoore76/ldlm/server/clientlock"
+	"github.com/imoore76/ldlm/server/ipc"
 	"github.com/imoore76/ldlm/server/session/store"
 	"os"
 	"os/exec"
@@ -197,36 +201,57 @@ func c18DuringStartup(t *testing.T, res *common.Result) {
 	st.Close()
 	done := make(chan *proc, 1)
 	go func() { done <- startServer(t, srvCfg{dir: dir, state: state, sock: sock}) }()
-	// as soon as the socket answers
-	var listed []hold
-	var early bool
+	// as soon as the socket answers: list over the admin protocol (what `ldlm-lock list` sends), and at once
+	// unlock twenty of the listed holds, spread over the listing, on the same connection
+	type attempt struct {
+		Name, Key string
+		Unlocked  bool
+		Err       string
+	}
+	var listed []string
+	var attempts []attempt
+	var c *rpc.Client
 	deadline := time.Now().Add(30 * time.Second)
-	for time.Now().Before(deadline) {
-		if _, err := os.Stat(sock); err == nil {
-			if hs, _, ok := adminList(sock); ok && len(hs) > 0 {
-				listed = hs
-				break
+	for time.Now().Before(deadline) && len(listed) == 0 {
+		if c == nil {
+			if cc, err := rpc.DialHTTP("unix", sock); err == nil {
+				c = cc
+			} else {
+				time.Sleep(time.Millisecond)
+				continue
 			}
 		}
-		select {
-		case p := <-done:
-			done <- p
-			early = false
-		default:
-			early = true
+		var ls ipc.ListLocksResponse
+		if err := c.Call("IPC.ListLocks", ipc.ListLocksRequest{}, &ls); err != nil {
+			c.Close()
+			c = nil
+			continue
 		}
-		time.Sleep(2 * time.Millisecond)
+		listed = ls
+	}
+	if c != nil {
+		defer c.Close()
 	}
 	res.Eval(fmt.Sprintf("during-startup|holds=%d", N), true)
-	res.Count("during-startup:list-answered-before-the-listeners-were-up=" + fmt.Sprint(early))
 	if len(listed) == 0 {
-		res.Note("C18 during-startup: the admin tool listed nothing within 30 s; scenario not judged")
+		res.Note("C18 during-startup: the admin socket listed nothing within 30 s; scenario not judged")
 		(<-done).kill()
 		return
 	}
-	h := listed[len(listed)-1]
-	out := runAdmin(sock, "unlock", h.Name, h.Key)
-	claimed := strings.Contains(out.Stdout, "Unlocked: true")
+	re := regexp.MustCompile(`^\{Name: (.*), Key: (.*), Size: (\d+)\}$`)
+	for i := 0; i < 20; i++ {
+		m := re.FindStringSubmatch(listed[(len(listed)-1)*i/19])
+		if m == nil {
+			continue
+		}
+		var un ipc.UnlockResponse
+		err := c.Call("IPC.Unlock", ipc.UnlockRequest{Name: m[1], Key: m[2]}, &un)
+		a := attempt{Name: m[1], Key: m[2], Unlocked: bool(un)}
+		if err != nil {
+			a.Err = err.Error()
+		}
+		attempts = append(attempts, a)
+	}
 	srv := <-done
 	defer srv.kill()
 	if !srv.started {
@@ -234,14 +259,20 @@ func c18DuringStartup(t *testing.T, res *common.Result) {
 		return
 	}
 	after, _, ok := adminList(sock)
-	replay := map[string]any{"state_file_holds": N, "listed_when_the_socket_first_answered": len(listed), "unlock": fmt.Sprintf("ldlm-lock unlock %s %s", h.Name, h.Key), "unlock_output": out}
-	switch {
-	case !claimed:
-		res.Find(common.Finding{Kind: "violation", Property: "C18", Signature: "stack:ipc:unlock-failed:during-startup",
-			What: fmt.Sprintf("`ldlm-lock list` showed hold %s while the server was restoring its state file, but `ldlm-lock unlock` of exactly that hold failed: %s %s", h, strings.TrimSpace(out.Stdout), strings.TrimSpace(out.Stderr)), Replay: replay})
-	case ok && containsHold(after, h):
-		res.Find(common.Finding{Kind: "violation", Property: "C18", Signature: "stack:ipc:unlock-undone:during-startup",
-			What: fmt.Sprintf("`ldlm-lock unlock` of hold %s reported success while the server was restoring its state file, but the hold is listed again once start-up has finished", h), Replay: replay})
+	res.CountN("during-startup:unlock-attempts", len(attempts))
+	replay := map[string]any{"state_file_holds": N, "listed_when_the_socket_first_answered": len(listed), "unlock_attempts": attempts}
+	for _, a := range attempts {
+		h := hold{a.Name, a.Key, 1}
+		switch {
+		case !a.Unlocked:
+			res.Find(common.Finding{Kind: "violation", Property: "C18", Signature: "stack:ipc:unlock-failed:during-startup",
+				What: fmt.Sprintf("the admin listing showed hold %s while the server was restoring its state file, but the admin unlock of exactly that hold failed: %s", h, a.Err), Replay: replay})
+			return
+		case ok && containsHold(after, h):
+			res.Find(common.Finding{Kind: "violation", Property: "C18", Signature: "stack:ipc:unlock-undone:during-startup",
+				What: fmt.Sprintf("the admin unlock of hold %s reported success while the server was restoring its state file, but the hold is listed again once start-up has finished", h), Replay: replay})
+			return
+		}
 	}
 }
 
